@@ -8,6 +8,7 @@ allowed stored flows.  See DESIGN.md section 3, C18.
 import copy
 import gc
 import itertools
+import sys
 
 import lena.core
 import lena.flow
@@ -45,10 +46,10 @@ ASSUMPTIONS = [
     "Split decides about hoisting a filled Cache into a Source when it is constructed; histories "
     "that drop the cache behind an already constructed Split object are not generated",
 ]
-FAULT_KINDS = ["read-error-EIO", "consumer-stop-close", "consumer-stop-drop", "consumer-stop-hold", "raise-downstream",
+FAULT_KINDS = ["write-error-ENOSPC-at-close", "read-error-EIO", "consumer-stop-close", "consumer-stop-drop", "consumer-stop-hold", "raise-downstream",
                "raise-upstream-source", "raise-upstream-element", "drop_cache",
                "recompute", "process-crash"]
-EXPECTED_PROBES = ["held-generator-released-before-a-later-run", "other-object-ran-in-between", "downstream-updates-in-place", "source-reuses-one-context-object", "same-object-reused", "split-form-replay", "read-error-surfaced-loudly", "replay-run", "replay-after-interrupted-run", "stop-at-exact-length",
+EXPECTED_PROBES = ["write-error-surfaced-loudly", "held-generator-released-before-a-later-run", "other-object-ran-in-between", "downstream-updates-in-place", "source-reuses-one-context-object", "same-object-reused", "split-form-replay", "read-error-surfaced-loudly", "replay-run", "replay-after-interrupted-run", "stop-at-exact-length",
                    "two-caches-inner-replay", "hoisted-to-source", "empty-flow-cached",
                    "interrupted-recompute-over-existing-cache", "accumulator-upstream-of-replay"]
 
@@ -211,6 +212,10 @@ def gen_scenario(tape):
         op.eio = None
         if op.kind != "drop" and not op.crash and tape.chance(1, 10, "eio"):
             op.eio = 1 + tape.draw(8, "eio-at", sweep=True)
+        # the disk is full when buffered data of a dumping run goes out (at close)
+        op.enospc = None
+        if op.kind in ("complete", "stop") and not op.crash and not op.eio and tape.chance(1, 12, "enospc"):
+            op.enospc = 1 + tape.draw(2, "enospc-at-flush")
         sc.ops.append(op)
     return sc
 
@@ -418,6 +423,10 @@ def run(tape):
     sc = gen_scenario(tape)
     fs = SimFS(log)
     install(fs)
+    # an injected write error that surfaces while an abandoned generator is finalised cannot
+    # propagate (CPython reports it as unraisable): it goes to the event log, not to stderr
+    old_unraisable = sys.unraisablehook
+    sys.unraisablehook = lambda u: log.ev("unraisable", type(u.exc_value).__name__)
     res.say("pipeline: form=%s caches=%s pre=%s fc_upstream=%s mid=%d post=%s nest=%s context=%s "
             "protocol=%d" % (sc.form, [FNAMES[(sc.fname_kind[c], c)] for c in range(sc.ncaches)],
                              sc.pre_kinds, sc.fc, sc.nmid, sc.post_kinds, sc.nest,
@@ -486,6 +495,8 @@ def run(tape):
                 desc += " [object %d]" % op.obj
             if op.eio:
                 desc += " EIO at read %d" % op.eio
+            if getattr(op, "enospc", None):
+                desc += " ENOSPC at flush %d" % op.enospc
             if op.crash:
                 desc += " PROCESS-CRASH at disk op %d tear=%d" % op.crash
             res.say(desc)
@@ -498,8 +509,15 @@ def run(tape):
             eio_before = fs.fired.get("EIO", 0)
             if op.eio:
                 fs.eio_at = op.eio
+            enospc_before = fs.fired.get("ENOSPC-at-flush", 0)
+            if getattr(op, "enospc", None):
+                fs.enospc_flush_at = op.enospc
             obs = execute_run(sc, op, log, r, res, fs, shared)
             fs.eio_at = None
+            fs.enospc_flush_at = None
+            obs["enospc"] = fs.fired.get("ENOSPC-at-flush", 0) > enospc_before
+            if obs["enospc"]:
+                res.fault("write-error-ENOSPC-at-close")
             obs["eio"] = fs.fired.get("EIO", 0) > eio_before
             if obs["eio"]:
                 res.fault("read-error-EIO")
@@ -521,7 +539,9 @@ def run(tape):
                 break
             # bookkeeping for signatures and probes
             if not obs["model_complete"]:
-                if op.kind == "stop":
+                if obs.get("enospc") and obs["exc"] == "OSError":
+                    last_interrupt = "write-error"
+                elif op.kind == "stop":
                     last_interrupt = "consumer-stop"
                 elif op.kind == "raise-down":
                     last_interrupt = "downstream-raise"
@@ -529,6 +549,7 @@ def run(tape):
                     last_interrupt = "upstream-raise"
                 interrupted_before = True
     finally:
+        sys.unraisablehook = old_unraisable
         if was_gc:
             gc.enable()
     res.ticks = fs.clock.now - 1000
@@ -545,6 +566,7 @@ def _plain_op(sc):
     op.rebuild = True
     op.hoist = "none"
     op.eio = None
+    op.enospc = None
     op.crash = None
     op.obj = 0
     op.release = False
@@ -640,7 +662,7 @@ def judge(sc, op, r, obs, allowed, res, fs, ops_before, last_interrupt, interrup
             continue
         matching.append((combo, exp))
     obs["model_complete"] = all(e["complete"] for e in exps)
-    if obs.get("eio") and obs["exc"] == "OSError":
+    if (obs.get("eio") or obs.get("enospc")) and obs["exc"] == "OSError":
         # injected read error, relaxed oracle: the run may fail loudly; what it
         # delivered before must be a prefix of what some allowed state predicts;
         # caches it was dumping are interrupted (old complete cache or nothing).
@@ -648,11 +670,11 @@ def judge(sc, op, r, obs, allowed, res, fs, ops_before, last_interrupt, interrup
         ok = [(combo, e) for combo, e in zip(combos, exps)
               if obs["out"] == e["out"][:len(obs["out"])]]
         if not ok:
-            res.viol("C18:Cache:read-error:wrong-data-before-failing",
-                     "run %d failed with the injected EIO after yielding %s, which no allowed "
+            res.viol("C18:Cache:%s:wrong-data-before-failing" % ("read-error" if obs.get("eio") else "write-error"),
+                     "run %d failed with the injected I/O error after yielding %s, which no allowed "
                      "state explains" % (r, _short(obs["out"])))
             return
-        res.probe("read-error-surfaced-loudly")
+        res.probe("read-error-surfaced-loudly" if obs.get("eio") else "write-error-surfaced-loudly")
         res.nontrivial = True
         new_allowed = [[] for _ in range(sc.ncaches)]
         for combo, exp in ok:
@@ -660,6 +682,10 @@ def judge(sc, op, r, obs, allowed, res, fs, ops_before, last_interrupt, interrup
                 _add(new_allowed[c], combo[c])
                 if c in exp["dumped"]:
                     _add(new_allowed[c], None)
+                    if obs.get("enospc") and len(obs["out"]) == len(exp["full"]):
+                        # the whole flow went through: a cache whose own file was closed before
+                        # the disk ran full has legitimately stored its complete flow
+                        _add(new_allowed[c], exp["dumped"][c])
         for c in range(sc.ncaches):
             allowed[c] = new_allowed[c]
         return
@@ -682,7 +708,8 @@ def judge(sc, op, r, obs, allowed, res, fs, ops_before, last_interrupt, interrup
                 if sc.fc:
                     res.probe("accumulator-upstream-of-replay")
                 # disk hygiene: a pure replay run creates and writes nothing
-                if not exp["dumped"]:
+                # (judged only when every state that explains the run is a pure replay)
+                if not any(e["dumped"] for _, e in matching):
                     muts = fs.mutations(ops_before)
                     if muts:
                         res.viol("C18:Cache:replay:wrote-to-disk", "run %d replays the cache "
